@@ -314,25 +314,14 @@ class Bin(Factory, Container):
 
     @inheritdoc(Container)
     def __iadd__(self, other):
-        if isinstance(other, Bin):
-            if self.low != other.low:
-                raise ContainerException(f"cannot add Bins because low differs ({self.low} vs {other.low})")
-            if self.high != other.high:
-                raise ContainerException(f"cannot add Bins because high differs ({self.high} vs {other.high})")
-            if len(self.values) != len(other.values):
-                raise ContainerException(
-                    f"cannot add Bins because nubmer of values differs ({len(self.values)} vs {len(other.values)})"
-                )
-            if len(self.values) == 0:
-                raise ContainerException("cannot add Bins because number of values is zero")
-            self.entries += other.entries
-            for i in range(len(self.values)):
-                self.values[i] += other.values[i]
-            self.underflow += other.underflow
-            self.overflow += other.overflow
-            self.nanflow += other.nanflow
-            return self
-        raise ContainerException(f"cannot add {self.name} and {other.name}")
+        # merge with + first: it raises, leaving both operands untouched, if anything is incompatible
+        both = self + other
+        self.entries = both.entries
+        self.values = both.values
+        self.underflow = both.underflow
+        self.overflow = both.overflow
+        self.nanflow = both.nanflow
+        return self
 
     @inheritdoc(Container)
     def __mul__(self, factor):
